@@ -52,7 +52,7 @@ func init() {
 	register(&PropDef{
 		ID:       "C20",
 		Patterns: []string{"./lexer", "./parser", "./node", "./data", "./runtime", "./token", "./std/...", "./utils"},
-		Explanation: "Go's map iteration order is unspecified, so any range over a map whose body is sensitive to the order (emits output, calls script code, fills an ordered container, returns the first match, appends to a slice that is used unsorted) makes a sequential program non-deterministic. Every range over a map in the packages a script can execute is classified from its body and from what happens to the slices it fills; order-insensitive shapes are discharged, everything else must be a reviewed entry. " +
+		Explanation: "Go's map iteration order is unspecified, so any range over a map whose body is sensitive to the order (emits output, calls script code, fills an ordered container, returns the first match, appends to a slice that is used unsorted) makes a sequential program non-deterministic. Every range over a map in the packages a script can execute (lexer, parser, token, node, data, runtime, std/serializer/json, std/php and every package below it) is classified from its body and from what happens to the slices it fills; order-insensitive shapes are discharged, everything else must be a reviewed entry. " +
 			"The second rule takes a census of package-level variables written outside init by code in those packages: each must be reset per VM, immutable after initialisation, keyed by VM/request, or listed. Byte-identical output as a whole is not decided.",
 		Assumptions: []string{
 			"order-insensitive shapes: stores into maps/sets, deletes, commutative accumulation (+=, ++, |=, boolean flags, min/max), early return of a constant or of an error, appends to a slice that is sorted before the function uses or returns it",
